@@ -30,6 +30,8 @@ def describe(o, depth=0, _guard=[0]):
         return describe(o.base, depth) + ''.join(p for p in o.proj if p != '*')
     if k in ('param', 'local'):
         return o.name
+    if k == 'multi' and getattr(o, 'user', False):
+        return 'var:' + o.name
     if k == 'multi':
         return 'phi(' + '|'.join(sorted(set(describe(a, depth + 1) for a in o.alts))) + ')'
     if k == 'bin':
